@@ -4,6 +4,27 @@ from lib.vlib import jdump
 
 CLASSES = ("key-collision", "cached-negative", "header-shadowed", "skipped-rule-filter")
 
+# behaviour generation: (share of the behaviours, requests, entry templates, rule shells, server filters, plans, changes of
+# the mapper's table per behaviour).  The general universe, and focused ones (a header-conditioned entry ahead of a plain
+# one; a filtered rule ahead of the owning rule; sibling filters; method-restricted entries ahead of unrestricted ones for
+# the same URL with requests that differ in the method only; entries with rewrite targets and requests for the rewritten
+# URLs; one entry reached from two hosts by different ways, one of them through a filtered rule; rules for different hosts
+# with different rule filters, results stored for one, then the other, then the first asked for again; entries conditioned
+# on two different headers and requests for one URL whose header values collide once folded into one string; few URLs and
+# a backend deleted / created / replaced behind the mapper between two requests for one URL), so that every history
+# shape the cache is sensitive to occurs often
+UNIVERSES = (
+    (0.13, "C12SimReqs", "C12SimTemplates", "C12SimShells", "C12SimServerFilters", "PlansC12", 0),
+    (0.11, "C12ReqsA", "C12HdrFocus", "C12FocusShells", "C12NoServerFilter", "PlansHdrFocus", 0),
+    (0.11, "C12ReqsA", "C12RuleFocus", "C12FocusShells", "C12NoServerFilter", "PlansRuleFocus", 0),
+    (0.09, "C05FocusReqs", "C12FilterFocus", "C05FocusShells", "C12SimServerFilters", "PlansFilterFocus", 0),
+    (0.12, "C12MethReqs", "C12MethFocus", "C12FocusShells", "C12NoServerFilter", "PlansMethFocus", 0),
+    (0.10, "C12RwReqs", "C12RwFocus", "C12FocusShells", "C12NoServerFilter", "PlansRwFocus", 0),
+    (0.06, "C12ShareReqs", "C12ShareFocus", "C12ShareShells", "C12NoServerFilter", "PlansShareFocus", 0),
+    (0.09, "C12TenantReqs", "C12TenantFocus", "C12TenantShells", "C12NoServerFilter", "PlansTenantFocus", 0),
+    (0.09, "C12HdrKeyReqs", "C12HdrKeyFocus", "C12HdrKeyShells", "C12NoServerFilter", "PlansHdrKeyFocus", 0),
+    (0.10, "C12MapReqs", "C12MapFocus", "C12MapShells", "C12NoServerFilter", "PlansMapFocus", 3))
+
 
 def run(ctx):
     ctx.cov["rule"] = ("states = TLC check of Transparent (cached search = cache-less reference after any history and any evictions) on the "
@@ -33,9 +54,22 @@ def _mc(ctx):
     ctx.notes.append({"pinned_cache_design_refuted_by_tlc": r.violated is not None})
 
 
-def classify(q, cul, own, cown, exp, got):
+def _backend_of(cfg, own):
+    if not cfg or not own or own.get("code") != 0:
+        return None
+    try:
+        return cfg["rules"][own["pos"][0] - 1]["paths"][own["pos"][1] - 1]["backend"]
+    except Exception:
+        return None
+
+
+def classify(q, cul, own, cown, exp, got, cfg=None, mapsteps=None):
     """defect class of a divergence of the cached mux, from the request, the earlier request found responsible, and the
-    contract's owners of the two"""
+    contract's owners of the two; mapsteps: the changes of the table behind the mapper that preceded the request"""
+    if mapsteps and _backend_of(cfg, own) in [st.get("be") for st in mapsteps]:
+        # the entry the request is routed to points to a backend that was deleted, created or replaced since the server
+        # started: the cached mux did not follow the mapper
+        return "stale-backend"
     if not cul:
         return "unexplained"
     p = cul[0]
@@ -53,14 +87,17 @@ def classify(q, cul, own, cown, exp, got):
     return "other"
 
 
-def _report(ctx, how, cfg, q, exp, oc, ou, cul, own, cown, replay):
+def _report(ctx, how, cfg, q, exp, oc, ou, cul, own, cown, replay, mapsteps=None):
     if not R_same(ou, exp):
         return "model"
-    cls = classify(q, cul, own, cown, exp, oc)
+    cls = classify(q, cul, own, cown, exp, oc, cfg, mapsteps)
     sig = {"class": cls, "exp": R.kind(exp), "got": R.kind(oc)}
     what = "request %s: mux with route cache answers %s, cache-less mux and contract: %s" % (R.show_req(q), R.show(oc), R.show(exp))
     if cul:
         what += "; after earlier request %s" % R.show_req(cul[0])
+    if cls == "stale-backend":
+        what += "; the table behind the mapper had changed before the request (no reload of the server): %s" % ", ".join(
+            "%s %s" % (st.get("a"), st.get("inst") or st.get("be")) for st in mapsteps)
     ctx.violation(sig, what, replay)
     return cls
 
@@ -85,26 +122,62 @@ def _revisits(steps):
     return n
 
 
+def _folded(q):
+    """the header values of a request folded into one string, in the ways HttpRouter_Gen!HdrCollide looks at"""
+    a, b = R.chars(q["hdr"].get("X-A")), R.chars(q["hdr"].get("X-B"))
+    return {(sep, o, x + sep + y) for sep in ("", ",", ";") for o, (x, y) in enumerate(((a, b), (b, a)))}
+
+
+def _history_shapes(behs):
+    """how many generated requests stand in the histories the cache could get wrong in ways of its own:
+    after_mapper_change   the URL was served before, and the backend its entry points to has been deleted, created or
+                          replaced behind the mapper since;
+    interleaved_clients   the URL was served before to another client, another URL was served in between, and a filter
+                          of the configuration tells the two clients apart;
+    folded_headers        the URL was served before to a request with other header values that read the same once folded
+                          into one string, and the contract routes the two differently"""
+    out = {"after_mapper_change": 0, "interleaved_clients": 0, "folded_headers": 0}
+    for b in behs:
+        cfg = b[0]["cfg"]
+        seen = {}        # triple -> list of (index, request, exp)
+        changed = {}     # backend name -> index of the last change
+        for i, s in enumerate(b[1:]):
+            a = s.get("a")
+            if a == "purge":
+                seen = {}
+            elif a in ("unmap", "map", "remap"):
+                changed[s["be"]] = i
+            elif a == "req":
+                q = s["q"]
+                t = jdump([q[k] for k in ("host", "m", "path")])
+                be = _backend_of(cfg, s.get("own"))
+                earlier = seen.get(t, [])
+                if be in changed and any(j < changed[be] for j, _, _ in earlier):
+                    out["after_mapper_change"] += 1
+                if any(p["ip"] != q["ip"] and (e.get("code") == 403) != (s["exp"].get("code") == 403) and
+                       any(j < k < i for tt, l in seen.items() if tt != t for k, _, _ in l) for j, p, e in earlier):
+                    out["interleaved_clients"] += 1
+                if any(p["hdr"] != q["hdr"] and not R_same(e, s["exp"]) and _folded(p) & _folded(q) for _, p, e in earlier):
+                    out["folded_headers"] += 1
+                seen.setdefault(t, []).append((i, q, s["exp"]))
+    return out
+
+
 def _mbt(ctx):
     nb = 1500 if ctx.quick else 12000
     depth = 30 if ctx.quick else 40
     nreq = 7 if ctx.quick else 10
+    from concurrent.futures import ThreadPoolExecutor
+
+    def gen(job):
+        k, (share, reqs, templates, shells, sfs, plans, maps) = job
+        # (steps that change the mapper's table come on top of the request steps)
+        return ctx.tlc_simulate("HttpRouter_Gen", R.gen_cfg(reqs, nreq, True, templates, shells, sfs, plans, unmaps=maps),
+                                num=int(nb * share), depth=depth + maps, timeout=1200, seed=ctx.seed * 10 + k)
     behs = []
-    # the general universe, and focused ones (a header-conditioned entry ahead of a plain one; a filtered rule ahead of
-    # the owning rule; sibling filters; method-restricted entries ahead of unrestricted ones for the same URL with requests
-    # that differ in the method only; entries with rewrite targets and requests for the rewritten URLs; one entry reached
-    # from two hosts by different ways, one of them through a filtered rule), so that every history shape the cache is
-    # sensitive to occurs often
-    for k, (share, reqs, templates, shells, sfs, plans) in enumerate((
-            (0.16, "C12SimReqs", "C12SimTemplates", "C12SimShells", "C12SimServerFilters", "PlansC12"),
-            (0.16, "C12ReqsA", "C12HdrFocus", "C12FocusShells", "C12NoServerFilter", "PlansHdrFocus"),
-            (0.16, "C12ReqsA", "C12RuleFocus", "C12FocusShells", "C12NoServerFilter", "PlansRuleFocus"),
-            (0.12, "C05FocusReqs", "C12FilterFocus", "C05FocusShells", "C12SimServerFilters", "PlansFilterFocus"),
-            (0.18, "C12MethReqs", "C12MethFocus", "C12FocusShells", "C12NoServerFilter", "PlansMethFocus"),
-            (0.14, "C12RwReqs", "C12RwFocus", "C12FocusShells", "C12NoServerFilter", "PlansRwFocus"),
-            (0.08, "C12ShareReqs", "C12ShareFocus", "C12ShareShells", "C12NoServerFilter", "PlansShareFocus"))):
-        behs += ctx.tlc_simulate("HttpRouter_Gen", R.gen_cfg(reqs, nreq, True, templates, shells, sfs, plans),
-                                 num=int(nb * share), depth=depth, timeout=1200, seed=ctx.seed * 10 + k)
+    with ThreadPoolExecutor(max_workers=3) as ex:      # one TLC worker each
+        for part in ex.map(gen, enumerate(UNIVERSES)):
+            behs += part
     behs = [b for b in behs if b and b[0].get("a") == "cfg" and len(b) > 1]
     if len(behs) < nb // 2:
         ctx.inconclusive("C12: TLC produced only %d usable behaviours" % len(behs))
@@ -118,6 +191,11 @@ def _mbt(ctx):
     ctx.notes.append({"tlc_leads_by_class": leads})
     if any(leads.get(c, 0) == 0 for c in CLASSES):
         ctx.inconclusive("C12: generated behaviours do not cover every cache-divergence class of the pinned design: %s" % leads)
+    shapes = _history_shapes(behs)
+    ctx.notes.append({"replay_history_shapes": shapes})
+    low = {k: v for k, v in shapes.items() if v < (20 if ctx.quick else 100)}
+    if low:
+        ctx.inconclusive("C12: generated behaviours hold too few histories of the shapes %s" % low)
     revisits = sum(_revisits(((s["q"], s["exp"]) if s.get("a") == "req" else None) for s in b[1:]) for b in behs)
     ctx.notes.append({"replay_requests_for_an_earlier_rewritten_url": revisits})
     if revisits < 25:
@@ -153,7 +231,8 @@ def _mbt(ctx):
     model = 0
     hit = {}
     for m in [x for x in recs if x.get("k") == "mismatch"]:
-        c = _report(ctx, "replay", m["cfg"], m["q"], m["exp"], m["oc"], m["ou"], m.get("cul"), m.get("own"), m.get("cown"), m)
+        c = _report(ctx, "replay", m["cfg"], m["q"], m["exp"], m["oc"], m["ou"], m.get("cul"), m.get("own"), m.get("cown"), m,
+                    m.get("mapsteps"))
         hit[c] = hit.get(c, 0) + 1
         model += c == "model"
     ctx.notes.append({"replay_divergences_by_class": hit})
@@ -168,30 +247,41 @@ def _tv(ctx):
     rc, out = ctx.go_test(R.PKG, "^TestVerifC12Trace$", env={"VERIF_OUT": raw, "VERIF_N": ncfg, "VERIF_MINLEN": lo, "VERIF_MAXLEN": hi},
                           timeout=1200)
     tp, ev, other = R.split_trace(ctx, raw, "c12_trace.ndjson")
-    ncfgs = sum(1 for e in ev if e["ev"] == "cfg")
+    ncfgs = sum(1 for e in ev if e["ev"] == "cfg" and not e.get("same"))
     if rc != 0 or ncfgs < ncfg:
         ctx.inconclusive("C12 trace harness failed (%d configurations):\n%s" % (ncfgs, out[-3000:]))
     # vacuity: how often could the cache have answered (same host/method/path served before under this configuration)
     reqs = rep = 0
     seen = set()
     kinds = {}
+    mapchg = aftermap = 0      # changes of the mapper's table; repeated URLs served after one
+    changed = False
     for e in ev:
         if e["ev"] == "cfg":
+            if e.get("same"):      # the muxes go on: the table behind their mapper has changed
+                mapchg += 1
+                changed = True
+                continue
             seen = set()
+            changed = False
             continue
         reqs += 1
         t = jdump([e["q"][k] for k in ("host", "m", "path")])
         if t in seen:
             rep += 1
+            aftermap += changed and e["ou"].get("code") in (0, 503)
             ctx.nontrivial({"tv": R.kind(e["ou"]), "c": R.kind(e["oc"])})
         seen.add(t)
         kinds[R.kind(e["ou"])] = kinds.get(R.kind(e["ou"]), 0) + 1
     ratio = rep / max(1, reqs)
     revisits = _revisits((None if e["ev"] == "cfg" else (e["q"], e["ou"])) for e in ev)
     ctx.notes.append({"tv_requests": reqs, "tv_repeat_ratio": round(ratio, 3), "tv_outcomes": kinds,
+                      "tv_mapper_changes": mapchg, "tv_repeated_urls_after_a_mapper_change": aftermap,
                       "tv_requests_for_an_earlier_rewritten_url": revisits})
     # (these counts come from the real code: they are looked at after the trace has been judged)
     vacuous = None
+    if aftermap < ncfgs:
+        vacuous = "C12 trace is vacuous: only %d repeated URLs are served after a change of the mapper's table" % aftermap
     if revisits < ncfgs // 8:
         vacuous = "C12 trace is vacuous: only %d of %d requests ask for the URL an earlier request was rewritten to" % (revisits, reqs)
     if ratio < 0.2 or kinds.get("backend", 0) == 0 or kinds.get("403", 0) == 0 or kinds.get("404", 0) == 0:
@@ -208,8 +298,15 @@ def _tv(ctx):
         if rec.get("okU") and rec.get("okC"):
             continue
         cfg = R.cfg_of_line(ev, idx)
+        mapsteps = []
+        for j in range(idx, -1, -1):
+            if ev[j]["ev"] == "cfg":
+                if not ev[j].get("same"):
+                    break
+                mapsteps.insert(0, ev[j]["step"])
         c = _report(ctx, "trace", cfg, e["q"], rec["exp"], e["oc"], e["ou"], e.get("cul"), rec.get("own"), rec.get("cown"),
-                    {"cfg": cfg, "q": e["q"], "cached": e["oc"], "cache-less": e["ou"], "contract": rec["exp"], "culprit": e.get("cul")})
+                    {"cfg": cfg, "q": e["q"], "cached": e["oc"], "cache-less": e["ou"], "contract": rec["exp"], "culprit": e.get("cul"),
+                     "mapper_changes": mapsteps}, mapsteps)
         hit[c] = hit.get(c, 0) + 1
         model += c == "model"
     ctx.notes.append({"trace_divergences_by_class": hit})
